@@ -23,8 +23,8 @@ CONSTANTS
   Mults = {150}
   MBPs = {1, 2}
   InitMBP = 1
-  MaxBlock = 6
-  MaxOps = 5
+  MaxBlock = 8
+  MaxOps = 4
   MaxDel = 2
   OnlineOps = TRUE
 VIEW MCView
